@@ -999,7 +999,13 @@ func v16LateAck(name string, n int, seed uint64, epoch uint64) v16Case {
 	if code := sc.hotRestart(epoch + 1); code != 0 {
 		sc.fail("C16:hot-restart-call-failed", fmt.Sprintf("retry returned class %d", code))
 	}
-	sc.checkExit("retry")
+	if sc.checkExit("retry") && o.LAck >= 0 {
+		// the late ack was ignored: the next hand-over must be a normal, complete one
+		if o.LSess[0] != int64(defaultState) {
+			sc.fail("C16:late-ack-changed-server-session-state", fmt.Sprintf("server session 0 in state %d after an ack handled outside hotRestartState", o.LSess[0]))
+		}
+		sc.checkCompleted("retry", epoch+1)
+	}
 	time.Sleep(200 * time.Millisecond)
 	o2 := sc.peek()
 	sc.setStat("retry_listener_state", o2.LState)
